@@ -298,6 +298,9 @@ if cfg.get('nanblock'):
     img[5:9, 7:12] = np.nan
 if cfg.get('blankcols'):
     img[:, :cfg['blankcols']] = np.nan
+if cfg.get('outliers'):
+    m_ = rng.random((H, W)) < 0.04
+    img[m_] += 12.0
 if cfg.get('infs'):
     img[20, 20] = np.inf
     img[30, 5] = -np.inf
@@ -314,6 +317,14 @@ def run(a, tag):
         with fits.open(fn, mode='update', do_not_scale_image_data=True) as h:
             h[0].header['BSCALE'] = BS
         return BANE.filter_image(fn, None, step_size=(cfg['grid'], cfg['grid']), box_size=(cfg['box'], cfg['box']), cores=cfg['cores'], nslice=cfg['nslice'], mask=True)
+    if cfg.get('cube4'):
+        cube = np.empty((3, 3) + a.shape)
+        for p_ in range(3):
+            for q_ in range(3):
+                cube[p_, q_] = a * (2.0 + p_) + 40.0 * (1 + p_ + 3 * q_)      # every other plane: another level and noise
+        cube[0, 1] = a
+        fits.PrimaryHDU(cube.astype(np.float64), header=hdr).writeto(fn, overwrite=True)
+        return BANE.filter_image(fn, None, step_size=(cfg['grid'], cfg['grid']), box_size=(cfg['box'], cfg['box']), cores=cfg['cores'], nslice=cfg['nslice'], mask=True, cube_index=1)
     fits.PrimaryHDU(a.astype(np.float64), header=hdr).writeto(fn, overwrite=True)
     return BANE.filter_image(fn, None, step_size=(cfg['grid'], cfg['grid']), box_size=(cfg['box'], cfg['box']), cores=cfg['cores'], nslice=cfg['nslice'], mask=True)
 out = {}
@@ -534,9 +545,10 @@ class SeqBarrier:
         self.cv.notify_all()
 
 
-def run_bane_sym(c, bane, pixels, stripes, grid, box, domask=True, bscale=None, naxis=2):
-    """all stripes of the real sigma_filter on the pixel array `pixels` (object array); returns (ibkg, irms)"""
-    H, W = pixels.shape
+def run_bane_sym(c, bane, pixels, stripes, grid, box, domask=True, bscale=None, naxis=2, cube_index=0):
+    """all stripes of the real sigma_filter on the pixel array `pixels` (object array, 2-D, or the full 3-D / 4-D file
+    array when naxis > 2); returns (ibkg, irms)"""
+    H, W = pixels.shape[-2:]
     shared = {'ibkg_x': oa(real_np.full((H, W), 0, dtype=object)), 'irms_x': oa(real_np.full((H, W), 0, dtype=object))}
     bane.np = ExecNP(shared)
     bane.memory_id = 'x'
@@ -557,11 +569,11 @@ def run_bane_sym(c, bane, pixels, stripes, grid, box, domask=True, bscale=None, 
 
     class Sec:
         def __getitem__(self, key):
-            if naxis == 3:
+            if pixels.ndim == 2 and naxis == 3:
                 key = key[1:]
-            if naxis == 4:
+            if pixels.ndim == 2 and naxis == 4:
                 key = key[2:]
-            return oa(pixels[key].copy())
+            return oa(real_np.array(pixels[key], dtype=object, copy=True))
 
     class HDU:
         section = Sec()
@@ -593,7 +605,7 @@ def run_bane_sym(c, bane, pixels, stripes, grid, box, domask=True, bscale=None, 
     def work(region):
         lock.acquire()
         try:
-            bane.sigma_filter('f.fits', region, grid, box, (H, W), domask, 0)
+            bane.sigma_filter('f.fits', region, grid, box, (H, W), domask, cube_index)
         except BaseException as e:
             errs.append(e)
             try:
@@ -687,9 +699,16 @@ def h_exec(bane, cfg, mode):
             c.oblige(tag + ':BSCALE: same blank pattern', z3.BoolVal(ok))
             c.oblige(tag + ':BSCALE: maps of the physical image', z3.And([L(b1[p]) == L(b0[p]) for p in real_np.ndindex((H, W)) if isinstance(b0[p], SN) and isinstance(b1[p], SN)] +
                                                                          [L(r1[p]) == L(r0[p]) for p in real_np.ndindex((H, W)) if isinstance(r0[p], SN) and isinstance(r1[p], SN)]), timeout_ms=60000)
-        if mode == 'cube':
-            b1, r1 = run_bane_sym(c, bane, image(px), naxis=3, **kw)
-            c.oblige(tag + ':3-D file: same maps as the 2-D plane', z3.And([z3.BoolVal(isnan(b0[p]) == isnan(b1[p]) and isnan(r0[p]) == isnan(r1[p])) for p in real_np.ndindex((H, W))] +
+        if mode in ('cube', 'cube4'):
+            # the full file array: every plane has its own symbols; plane `cube_index` (3-D) / [0, cube_index] (4-D) is the image
+            other = lambda tag_: image(lambda r, cc: real('q%s_%d_%d' % (tag_, r, cc)))
+            if mode == 'cube':
+                full = real_np.array([other('a'), image(px), other('b')], dtype=object)
+                b1, r1 = run_bane_sym(c, bane, full, naxis=3, cube_index=1, **kw)
+            else:
+                full = real_np.array([[other('a'), image(px), other('b')], [other('c'), other('d'), other('e')], [other('f'), other('g'), other('h')]], dtype=object)
+                b1, r1 = run_bane_sym(c, bane, full, naxis=4, cube_index=1, **kw)
+            c.oblige(tag + ':3-D / 4-D file: the maps are those of the requested plane (first axis 0 for 4-D)', z3.And([z3.BoolVal(isnan(b0[p]) == isnan(b1[p]) and isnan(r0[p]) == isnan(r1[p])) for p in real_np.ndindex((H, W))] +
                                                                           [L(b1[p]) == L(b0[p]) for p in real_np.ndindex((H, W)) if isinstance(b0[p], SN) and isinstance(b1[p], SN)]), timeout_ms=60000)
         return dict(clips=bane.sigmaclip.calls)
     return h
@@ -699,7 +718,8 @@ def exec_replay():
     for cfg in (dict(H=48, W=40, grid=4, box=12, cores=2, nslice=2, offset=1000.0, scale=3.0, nanblock=False),
                 dict(H=48, W=40, grid=4, box=12, cores=1, nslice=1, offset=1000.0, scale=-2.5, nanblock=True),
                 dict(H=64, W=96, grid=16, box=16, cores=1, nslice=1, offset=1000.0, scale=2.0, nanblock=True, blankcols=40),
-                dict(H=48, W=40, grid=4, box=12, cores=2, nslice=2, offset=10.0, scale=2.0, nanblock=True, infs=True)):
+                dict(H=48, W=40, grid=4, box=12, cores=2, nslice=2, offset=10.0, scale=2.0, nanblock=True, infs=True),
+                dict(H=48, W=40, grid=4, box=12, cores=1, nslice=1, offset=7.0, scale=2.0, nanblock=False, cube4=True)):
         bad, cls, detail = bane_oracle(cfg)
         if bad:
             return bad, cls, detail, cfg
@@ -729,7 +749,7 @@ def k_exec(rep, thorough):
     loader.patch(bane, builtins=False)
     plans, meta = [], []
     for cfg in EXEC_CONFIGS:
-        for mode in ('shift', 'const') + (('bscale', 'cube') if (thorough or cfg is EXEC_CONFIGS[1]) else ()):
+        for mode in ('shift', 'const') + (('bscale', 'cube', 'cube4') if (thorough or cfg is EXEC_CONFIGS[1]) else ()):
             plans.append((h_exec(bane, cfg, mode), dict(wall_s=600)))
             meta.append((cfg['name'], mode))
     done = set()
@@ -811,7 +831,9 @@ def rest_of_run(rep, thorough):
                 dict(H=48, W=40, grid=4, box=12, cores=2, nslice=2, offset=10.0, scale=2.0, nanblock=False, bscale=-2.5),
                 dict(H=36, W=44, grid=2, box=4, cores=1, nslice=1, offset=5.0, scale=2.0, nanblock=False),
                 dict(H=64, W=96, grid=16, box=16, cores=1, nslice=1, offset=1000.0, scale=2.0, nanblock=True, blankcols=40),
-                dict(H=48, W=40, grid=4, box=12, cores=2, nslice=2, offset=10.0, scale=2.0, nanblock=True, infs=True)):
+                dict(H=48, W=40, grid=4, box=12, cores=2, nslice=2, offset=10.0, scale=2.0, nanblock=True, infs=True),
+                dict(H=64, W=64, grid=8, box=32, cores=1, nslice=1, offset=3.0, scale=2.0 ** -30, nanblock=False, outliers=True),
+                dict(H=48, W=40, grid=4, box=12, cores=1, nslice=1, offset=7.0, scale=2.0, nanblock=False, cube4=True)):
         bad, cls, detail = bane_oracle(cfg)
         rep.validated_runs(4)
         if bad:
